@@ -33,6 +33,93 @@ CHECKS = {
         note="Both sides of a law come from the library; independence comes "
         "from the spec-side expectation and the key comparison. cartesian "
         "defines no dagger (clauses skipped there).", ref="5/C02"),
+    "C03": dict(
+        technique="property-based testing: pairs of specs built by different "
+        "routes / single-field mutants vs a structural model of equality; "
+        "repr round-trip through eval; hash and dict-lookup consistency",
+        text="Generated cat/monoidal/rigid values are built twice (scanning "
+        "constructor, whiskering, slicing a longer diagram) or mutated in one "
+        "field; == must agree with structural equality of the specs in both "
+        "directions, equal values must hash and look up alike (also as "
+        "functor keys), box == wrapping diagram, repr must evaluate back to "
+        "an equal value. Exploration, not proof.",
+        note="Structural equality of specs uses Python's == on names and "
+        "payloads; one known finding (hashes across the numeric tower) is "
+        "listed and excluded by matcher.", ref="5/C03"),
+    "C04": dict(
+        technique="property-based testing: generated functors and diagrams; "
+        "the whole image is predicted on the spec side and compared, plus the "
+        "functoriality laws as ==",
+        text="Generated cat/monoidal/rigid functors (object images of length "
+        "0-2 with adjoints, box images = generated diagrams, dict or "
+        "callable) applied to generated diagrams with daggers, swaps, "
+        "cups/caps, sums, bubbles; F(d) is compared box by box with an image "
+        "assembled by the harness (nested cups/caps, shifted offsets, "
+        "daggered images), and composite/tensor/identity/dagger/slice/sum "
+        "laws are asserted. Exploration, not proof.",
+        note="Block-swap images are compared with the library's own "
+        "Diagram.swap (decided by C10); F(d†) == F(d)† is strict only where "
+        "it is satisfiable (DESIGN.md C04).", ref="5/C04"),
+    "C06": dict(
+        technique="property-based testing + exhaustive small-scope "
+        "enumeration: interchanger-equivalence classes by BFS with an "
+        "independent model; step-capped termination",
+        text="For generated connected diagrams the whole interchanger-"
+        "equivalence class is enumerated with the harness model (cap 3000) "
+        "and every (sampled) member must normalise to the same value; every "
+        "normalize step must be one legal interchange; results are "
+        "idempotent, keep boxes and exact denotation; termination is decided "
+        "by a step cap; disconnected inputs may only raise "
+        "NotImplementedError. Exploration, not proof.",
+        note="Trusts model O3 (self-tested in C05) and the connectivity "
+        "computation O2.", ref="5/C06"),
+    "C07": dict(
+        technique="property-based testing: zig-zag insertion generator, "
+        "per-step oracle (legal interchange or snake-equation removal), exact "
+        "tensor evaluation",
+        text="Zig-zags (both directions, both adjoints, nested, obstructed by "
+        "the diagram's own boxes) are inserted into connected rigid base "
+        "diagrams, plus transposes / cups-caps of composite types / currying "
+        "and a free generator; every yielded step is re-scanned, must be a "
+        "single-box move legal by the model or the removal of an adjacent "
+        "cap/cup pair in zig-zag position with equal outer types, and keeps "
+        "the exact denotation; the result has no removable snake left. "
+        "Exploration, not proof.",
+        note="Wire following and the snake-equation test are re-implemented "
+        "in the harness.", ref="5/C07"),
+    "C08": dict(
+        technique="property-based testing against numpy reference "
+        "(matrix product, kron, conjugate transpose, permutation matrices), "
+        "exact integer arithmetic",
+        text="Generated Gaussian-integer tensors over dimension tuples of "
+        "length 0-3 in {1,2,3}: then/tensor/dagger/id/swap/cups/caps are "
+        "compared entry by entry with numpy references, including both snake "
+        "equations on multi-wire types, the interchange law and swap "
+        "naturality. Exploration, not proof.",
+        note="numpy is the trusted reference; exact comparison.",
+        ref="5/C08"),
+    "C09": dict(
+        technique="property-based testing: differential against an "
+        "independent layer-by-layer reference evaluator, exact arithmetic",
+        text="tensor.Functor on generated rigid diagrams (daggers, swaps, "
+        "cups/caps with z != 0, dims as int or Dim, dict or callable, lists "
+        "or arrays) and eval() of tensor diagrams (spiders, bubbles, sums) "
+        "are compared exactly with a reference evaluator that never calls "
+        "Tensor.then/tensor; invariance under interchange and normal_form "
+        "(incl. snake removal). Exploration, not proof.",
+        note="One dimension per atomic type; Gaussian-integer entries.",
+        ref="5/C09"),
+    "C10": dict(
+        technique="exhaustive enumeration (all permutations of length <= 5/6, "
+        "all block swaps up to 4x4, five classes) + property-based testing, "
+        "wire tracking oracle",
+        text="Every swap/permutation diagram must consist of adjacent swap "
+        "boxes only, be well-typed, and its adjacent transpositions must "
+        "carry input i to position perm[i] (resp. realise the block swap); "
+        "codomain = permuted domain; non-permutations and length mismatches "
+        "must raise. Exhaustive within the stated bounds.",
+        note="Positions tracked from boxes/offsets by the harness.",
+        ref="5/C10"),
     "C05": dict(
         technique="property-based testing (Hypothesis) + exhaustive small-"
         "scope enumeration against a model interchange and an exact "
